@@ -76,7 +76,7 @@ def natOp (wide : Bool) (op : String) (a b : Nat) : Option String :=
   match op with
   | "add" => some (enc (x.add y)) | "sub" => some (enc (x.sub y))
   | "mul" => some (enc (x.mul y)) | "div" => some (enc (x.div y))
-  | "rem" => (x.remFuel 100000 y).map enc
+  | "rem" => (x.remFuel 4000000 y).map enc
   | "trunc" => some (enc x.trunc) | "round" => some (enc x.round)
   | "tof32" => some (if (x.cast FP32).isNan then "nan" else toString x.asF32)
   | "cmp" => some (b01 (x.lt y) ++ b01 (x.le y) ++ b01 (x.gt y) ++ b01 (x.ge y) ++ b01 (x.beq y))
@@ -170,7 +170,7 @@ def progStep (regs : Array Flt) (ins : String) : Option Flt :=
         | some x, some y =>
           (match op with
            | "min" => some (x.min y) | "max" => some (x.max y)
-           | "rem" => x.remFuel 100000 y
+           | "rem" => x.remFuel 4000000 y
            | "oadd" => some (x.add y) | "osub" => some (x.sub y)
            | "omul" => some (x.mul y) | "odiv" => some (x.div y)
            | _ => none)
@@ -180,7 +180,7 @@ def progStep (regs : Array Flt) (ins : String) : Option Flt :=
      | some x =>
        (match op with
         | "trunc" => some x.trunc | "round" => some x.round | "abs" => some x.abs | "neg" => some x.neg
-        | "sqrt" => x.sqrtFuel 100000
+        | "sqrt" => x.sqrtFuel 4000000
         | _ => none)
      | none => none)
   | _ => none
@@ -372,7 +372,7 @@ def handle (toks : List String) : String :=
            | "neg" => out (showFlt x.neg) (showFlt { x with sign := !x.sign }) "x"
            | "canon" => out (b01 x.isCanonical) "-" "-"
            | "sqrt" =>
-             (match x.sqrtFuel 100000 with
+             (match x.sqrtFuel 4000000 with
               | some r =>
                 let verdict :=
                   if x.cat == .zero then b01 (r.cat == .zero && r.sign == x.sign)
@@ -405,7 +405,7 @@ def handle (toks : List String) : String :=
           let sp := Spec.rem a b
           let exact := fin2 a b && !Spec.isZero b
           let spS := if exact && Res.val F sp ≠ Spec.remVal a b then "spec-inexact" else showRes F sp
-          (match a.remFuel 1000000 b with
+          (match a.remFuel 4000000 b with
            | some r => out (showFlt r) spS (tagOf F (if exact then some (Spec.remVal a b) else none) sp)
            | none => out "FUEL" spS "-")
         | _, _ => bad)
